@@ -259,7 +259,7 @@ func c15Bulk(c *core.Ctx) {
 		return true
 	})
 	if loop == nil {
-		c.Ob("C15-R3", fd.Name()+"#loop", fd.Decl.Pos(), false, "no request loop found")
+		c.Ob("C15-R3", fd.Name()+"#loop", fd.Decl.Pos(), false, "NOT FOUND: no request loop in this function")
 		return
 	}
 	// worker: the go statement inside the loop whose function sends a response;
